@@ -9,6 +9,12 @@ Case kinds
   table   : a hand-made phenotype table (duplicates, several groups per taxon, missing groups, unsorted labels)
             -> estimate
   monitor : real numpy generator with a fixed seed, large design -> realised variance components (predicate only)
+  session : ONE protocol object (G_E_Phenotyping or TruePhenotyping) driven through a list of operations -- phenotype(pg) calls
+            (each followed by MeanPhenotypicBreedingValue.estimate against the population object in force and TrueBreedingValue)
+            interleaved with in-place updates of the population object (mat, taxa, taxa_grp), of the protocol's genomic model
+            (u_a, beta), a different population object, setter calls (nenv, nrep, var_*, set_h2/set_H2) and copy/deepcopy of
+            the protocol; the whole session is replayed by the state machine of Model/C14_Session.v, every call is judged by
+            the predicate against the configuration in force at that call
 """
 import math, copy
 from fractions import Fraction
@@ -17,7 +23,7 @@ import coqemit as E
 
 ID = "C14"
 PROPS = "Props/C14.v"
-IMPORTS = "From Coq Require Import String.\nFrom PV Require Import Lib.Common Model.C14_Pheno."
+IMPORTS = "From Coq Require Import String.\nFrom PV Require Import Lib.Common Model.C14_Pheno Model.C14_Session."
 SHARD = 40
 LEVEL_TEXT = ("Coq theorems over an exact-rational executable model of G_E_Phenotyping.phenotype (draw consumption order, env-major "
               "block concatenation, label columns incl. the generated TaxonNN/TraitN names), set_h2/set_H2 and "
@@ -26,8 +32,10 @@ LEVEL_TEXT = ("Coq theorems over an exact-rational executable model of G_E_Pheno
               "one record per (env, rep, taxon) cell with that taxon's labels; zero noise gives the true genotypic value; heritability "
               "calibration var/(var+var_err) = h2; group means are arithmetic means; the estimate is invariant under every permutation "
               "of the phenotype rows; output aligned to the genotype order, every phenotyped taxon carrying the mean of all of its records whatever its group labels, absent taxa missing; "
-              "every one of the nenv environments in force at the call is simulated (also after nenv was reassigned). The model is tied to the code "
-              "by evaluating it inside Coq against the implementation's outputs on generated trials/tables")
+              "every one of the nenv environments in force at the call is simulated (also after nenv was reassigned); a state machine over (protocol parameters, "
+              "genomic model, population) for sessions on one protocol object, with theorems that every call's table is a function of the state in force at that call and its draws only "
+              "(no dependence on history) and satisfies the single-call statements for the labels, genotypes, coefficients and design in force. The model is tied to the code "
+              "by evaluating it inside Coq against the implementation's outputs on generated trials/tables and whole sessions")
 LEVEL_NOTE = ("trusted: Coq kernel + vm_compute; pandas groupby/mean, numpy matmul/var and the scale/unscale round trip of the breeding "
               "value matrices are compared within 2^-30 relative tolerance against the exact rational (summation order not modelled); "
               "numpy.random.Generator.multivariate_normal is trusted (scripted as mean + z*sqrt(diag cov) by the harness generator): "
@@ -38,14 +46,19 @@ RULE = ("case = trial (phased genotypes n in 1..12 incl. 10/11 for label widths,
         "additive model with 1-2 fixed effects, nenv 1..3 (in 15% reassigned after construction to 1..nenv+2, for integer and array nrep: re-broadcast, truncation and refusal; 7 such designs always present), nrep scalar or per-environment, each variance None/scalar/array/zero, dyadic "
         "scripted normal draws, optional set_h2/set_H2 incl. h2=1 and an invalid target, then estimate with/without group column, trait "
         "subset/reorder, dropped rows, row permutation, genotype matrix absent/same/permuted+extra+duplicate taxa/without labels) or table "
-        "(arbitrary records: taxon in several groups, null groups, 1..4 records per taxon) or monitor (fixed-seed real generator); "
-        "all from one PRNG; non-trivial = >= 2 taxa, >= 2 records for some taxon and a non-identity row permutation; distinct by SHA-256 of the case")
+        "(arbitrary records: taxon in several groups, null groups, 1..4 records per taxon) or monitor (fixed-seed real generator) or session "
+        "(one protocol object of either class, 2..4 calls interleaved with 1..3 operations each drawn from: in-place genotype / taxa (also a reordering of the same labels) / group update, "
+        "another population object (same or other size), u_a / beta update, copy / deepcopy, nenv / nrep / variance assignments incl. invalid ones, set_h2 / set_H2 incl. invalid targets; "
+        "14 fixed scripts always present); "
+        "all from one PRNG; non-trivial = >= 2 taxa, >= 2 records for some taxon and a non-identity row permutation (session: >= 2 calls with a change of the configuration between them); distinct by SHA-256 of the case")
 TRUSTED = ["pandas DataFrame.groupby(sort=True, dropna=False).agg(mean) (modelled as sorted distinct keys + arithmetic mean, compared in tolerance regime T)",
            "numpy.random.Generator.multivariate_normal for diagonal covariance (scripted as mean + z*sqrt(var)); distributional convergence only monitored",
            "DenseBreedingValueMatrix.from_numpy/unscale round trip (property C15) within 2^-30 relative",
            "DenseAdditiveLinearGenomicModel.gegv/gebv/var_A/var_G are modelled as Z@u_a + (beta[0] + mean-weighted other fixed effects) and population variance"]
 ASSUMPTIONS = ["trait values finite; taxa labels printable ASCII strings; variances are squares of dyadic standard deviations in scripted cases",
                "without a genotype matrix a null group label is exported by to_numpy(dtype=int) as INT64_MIN (numpy NaN->int64 cast on x86-64, RuntimeWarning only): modelled as such",
+               "sessions: the trait count and the marker count stay fixed; after set_h2/set_H2 the error standard deviation handed to the model is the float square root of the "
+               "exact error variance (checked in Coq to square to it within 2^-30), because the scripted generator scales draws by sqrt(var)",
                "a stored nrep array whose entries are all equal is indistinguishable from a broadcast integer: after nenv is reassigned it is re-broadcast; "
                "a non-uniform array longer than the new nenv is used by its first nenv entries (zip), a shorter one is refused"]
 
@@ -211,6 +224,7 @@ def gen_cases(rng, tier):
         cases.append(_table(rng))
     for which in (("env", "rep", "err", "all") if quick else ("env", "rep", "err", "all") * 3):
         cases.append(_monitor(rng, which))
+    cases += _gen_sessions(rng, quick)
     return cases
 
 # ------------------------------------------------------------------ implementation driver
@@ -317,6 +331,7 @@ def run_impl(case):
     from pybrops.breed.prot.pt.G_E_Phenotyping import G_E_Phenotyping
     from pybrops.breed.prot.pt.TruePhenotyping import TruePhenotyping
     from pybrops.breed.prot.bv.TrueBreedingValue import TrueBreedingValue
+    if case["kind"] == "session": return _run_session(case)
     if case["kind"] == "table":
         tn = case["trait"]
         d = {"taxa": [r[0] for r in case["rows"]], "taxa_grp": [r[1] for r in case["rows"]]}
@@ -506,16 +521,27 @@ def pred(case, out):
         _pred_monitor(case, out, bad); return bad[:8]
     if case["kind"] == "table":
         _pred_est(case, out, bad); return _dedupe(bad)
+    if case["kind"] == "session":
+        _pred_session(case, out, bad); return _dedupe(bad)
+    nenv, reps = _design(case)                         # the number of environments in force at the call, their replicate counts
+    if not _pred_ge(case, out, nenv, reps, bad): return bad
+    _pred_true(case, out, bad)
+    t = len(case["u"][0]); n = len(case["geno"][0]); gv = _truth(case)
+    _pred_h2_est(case, out, bad, t, n, gv)
+    return _dedupe(bad)
+
+def _pred_ge(case, out, nenv, reps, bad, approx_var=False):
+    """one G_E_Phenotyping.phenotype call against the configuration `case` (population, model, variances, draws) and the
+    design (nenv, reps) in force; False = nothing more can be checked"""
     geno = case["geno"]; n = len(geno[0]); t = len(case["u"][0])
     gv = _truth(case)
-    nenv, reps = _design(case)                         # the number of environments in force at the call, their replicate counts
     d = out["df"]
     if reps is None:
         if "exc" not in d: bad.append("phenotype(): returned %d records although %d environments have no replicate count (nenv=%d, nrep=%r)"
                                       % (d["nrow"], nenv - len(case["nrep"]), nenv, case["nrep"]))
         elif d["exc"] != "ValueError": bad.append("phenotype() raised %s: %s" % (d["exc"], d["msg"]))
-        return bad
-    if "exc" in d: return ["phenotype() raised %s: %s" % (d["exc"], d["msg"])]
+        return False
+    if "exc" in d: bad.append("phenotype() raised %s: %s" % (d["exc"], d["msg"])); return False
     if [int(x) for x in out["nrep_attr"]][:nenv] != reps: bad.append("stored nrep %r does not give the replicate counts %r of the %d environments" % (out["nrep_attr"], reps, nenv))
     taxa = case["taxa"] if case["taxa"] is not None else _autolabels("Taxon", n)
     grp = case["taxa_grp"]
@@ -553,19 +579,34 @@ def pred(case, out):
     if not out["geno_unchanged"]: bad.append("phenotype() modified the genotype matrix")
     for nm, sd in zip(range(3), (case["sd_env"], case["sd_rep"], case["sd_err"])):
         want = [s * s for s in _sdv(sd, t)]
-        if [_fh(h) for h in out["var_set"][nm]] != want: bad.append("variance parameter %d stored as %r" % (nm, out["var_set"][nm]))
+        got = [_fh(h) for h in out["var_set"][nm]]
+        if (got != want) if not approx_var else (len(got) != len(want) or any(not _close(a, b) for a, b in zip(got, want))):
+            bad.append("variance parameter %d stored as %r" % (nm, out["var_set"][nm]))
+    return True
+
+def _pred_true(case, out, bad):
+    """TruePhenotyping.phenotype / TrueBreedingValue.estimate against the population and model of `case`"""
+    geno = case["geno"]; n = len(geno[0]); t = len(case["u"][0])
+    gv = _truth(case)
+    taxa = case["taxa"] if case["taxa"] is not None else _autolabels("Taxon", n)
+    grp = case["taxa_grp"]
+    tnames = case["trait"] if case["trait"] is not None else _autolabels("Trait", t)
     # --- TruePhenotyping / TrueBreedingValue
-    td = out["true_df"]
-    if "exc" in td: bad.append("TruePhenotyping raised %s" % td["exc"])
+    td = out.get("true_df")
+    if td is None: pass
+    elif "exc" in td: bad.append("TruePhenotyping raised %s" % td["exc"])
     else:
         if td["cols"] != ["taxa"] + (["taxa_grp"] if grp is not None else []) + tnames: bad.append("TruePhenotyping columns %r" % td["cols"])
         if td["nrow"] != n or td["taxa"] != taxa or (grp is not None and td.get("taxa_grp") != grp): bad.append("TruePhenotyping: one labelled record per taxon expected")
         elif any(v is None or not _close(_fh(v), gv[i][j]) for i in range(n) for j, v in enumerate(td["vals"][i])): bad.append("TruePhenotyping value is not the true genotypic value")
-    tb = out["true_bv"]
-    if "exc" in tb: bad.append("TrueBreedingValue raised %s" % tb["exc"])
+    tb = out.get("true_bv")
+    if tb is None: pass
+    elif "exc" in tb: bad.append("TrueBreedingValue raised %s" % tb["exc"])
     else:
         if tb["taxa"] != case["taxa"] or tb["taxa_grp"] != grp or tb["trait"] != case["trait"]: bad.append("TrueBreedingValue labels")
         if len(tb["mat"]) != n or any(v is None or not _close(_fh(v), gv[i][j]) for i in range(n) for j, v in enumerate(tb["mat"][i])): bad.append("TrueBreedingValue is not the true value")
+
+def _pred_h2_est(case, out, bad, t, n, gv):
     # --- heritability
     if case.get("h2") is not None:
         h = case["h2"]; ho = out["h2"]
@@ -587,7 +628,6 @@ def pred(case, out):
                 elif vg[j] == 0 and ve != 0: bad.append("set_%s: var_err != 0 for a trait without genetic variance" % h["which"])
         if out["true_seth"] is None or "exc" not in out["true_seth"]: bad.append("TruePhenotyping.set_h2 did not refuse")
     _pred_est(case, out, bad)
-    return _dedupe(bad)
 
 def _dedupe(bad):
     seen = []
@@ -604,6 +644,11 @@ def classify(case, out, clauses):
 
 # ------------------------------------------------------------------ evidence helpers
 def nontrivial(case, out):
+    if case["kind"] == "session":                              # at least two calls with a change of the configuration in between
+        ks = [op["op"] for op in case["steps"]]
+        if "exc" in out or ks.count("pheno") < 2: return False
+        first, last = ks.index("pheno"), len(ks) - 1 - ks[::-1].index("pheno")
+        return any(k not in ("pheno", "copy") for k in ks[first:last])
     if case["kind"] == "monitor" or "exc" in out or "exc" in out.get("df", {}): return False
     rows, _ = _base_table(case, out)
     sub = [rows[i] for i in _kept(case, rows)]
@@ -616,6 +661,11 @@ def describe(case, out):
     est = case.get("est") or {}
     d = {"kind": case["kind"], "raised": "exc" in out}
     if case["kind"] == "monitor": d["component"] = case["which"]; return d
+    if case["kind"] == "session":
+        ks = [op["op"] for op in case["steps"]]
+        d["protocol"] = case["proto"]["cls"]; d["calls"] = ks.count("pheno")
+        d["updates"] = "+".join(sorted(set(k for k in ks if k != "pheno"))) or "none"
+        return d
     d["grp_col"] = bool(est.get("grp")); d["gt"] = "none" if est.get("gt") is None else ("unlabelled" if est["gt"]["taxa"] is None else "labelled")
     d["dropped_rows"] = bool(est.get("drop") or est.get("drop_taxon"))
     if case["kind"] == "trial":
@@ -664,6 +714,7 @@ def _emit_est(case, out, parts):
 def emit_case(case, out):
     if case["kind"] == "monitor": return None
     if "exc" in out: return "false"
+    if case["kind"] == "session": return _emit_session(case, out)
     parts = []
     if case["kind"] == "table":
         _emit_est(case, out, parts)
@@ -713,3 +764,364 @@ def emit_case(case, out):
         parts.append(E.b("exc" not in ho and ho["others_unchanged"] or "exc" in ho))
     _emit_est(case, out, parts)
     return "(" + head + "  " + "\n   && ".join(parts) + ")"
+
+# ================================================================== sessions on ONE protocol object
+# A session = initial population / genomic model / protocol + a list of operations; see Model/C14_Session.v.
+# The configuration in force is tracked here independently of the Coq machine (plain assignments), every call is
+# judged against the configuration in force AT THAT CALL.
+def _expand_sd(sd, t):
+    if sd is None: return [0.0] * t
+    if isinstance(sd, list): return list(sd)
+    return [sd] * t
+
+def _sess_init(case):
+    pr = case["proto"]; t = len(case["model"]["u"][0])
+    st = {"cls": pr["cls"], "geno": case["pop"]["geno"], "taxa": case["pop"]["taxa"], "taxa_grp": case["pop"]["taxa_grp"],
+          "beta": case["model"]["beta"], "u": case["model"]["u"], "trait": case["model"]["trait"], "t": t}
+    if pr["cls"] == "GE":
+        st["nenv"] = pr["nenv"]
+        st["nrep"] = [pr["nrep"]] * pr["nenv"] if isinstance(pr["nrep"], int) else list(pr["nrep"])
+        st["sd"] = {k: _expand_sd(pr["sd_" + k], t) for k in ("env", "rep", "err")}
+    return st
+
+def _var_G(st):
+    """exact per-trait population variance of the genotypic values in force"""
+    gv = _truth(st); n = len(gv); out = []
+    for j in range(st["t"]):
+        col = [gv[i][j] for i in range(n)]; mu = sum(col) / n
+        out.append(sum((x - mu) ** 2 for x in col) / n)
+    return out
+
+def _h2_target(op, t):
+    return [_F(x) for x in (op["val"] if isinstance(op["val"], list) else [op["val"]] * t)]
+
+def _sess_apply(st, op):
+    """the configuration after the operation and whether the operation has to be accepted ("ok") or refused ("raise",
+    configuration unchanged); `st` is updated in place"""
+    k = op["op"]; t = st["t"]
+    if k == "pheno": return "ok"
+    if k == "copy":
+        # a stored nrep array that does not have nenv entries (non-uniform array kept after nenv was reassigned) is refused by the
+        # constructor the copy goes through; the property says nothing about copies of such a protocol
+        return "ok" if st["cls"] != "GE" or len(st["nrep"]) == st["nenv"] else "any"
+    if k == "set_geno": st["geno"] = op["geno"]; return "ok"
+    if k == "set_taxa": st["taxa"] = op["taxa"]; return "ok"
+    if k == "set_grp": st["taxa_grp"] = op["taxa_grp"]; return "ok"
+    if k == "new_pop": st["geno"], st["taxa"], st["taxa_grp"] = op["geno"], op["taxa"], op["taxa_grp"]; return "ok"
+    if k == "set_u": st["u"] = op["u"]; return "ok"
+    if k == "set_beta": st["beta"] = op["beta"]; return "ok"
+    if k == "set_h2":
+        if st["cls"] != "GE": return "raise"
+        vg = _var_G(st); hv = _h2_target(op, t)
+        if any(hv[j] > 1 and vg[j] > 0 for j in range(t)): return "raise"
+        st["sd"]["err"] = list(op["sd_hint"]); st["var_err_exact"] = [(1 - hv[j]) / hv[j] * vg[j] for j in range(t)]
+        return "ok"
+    if k == "set_nenv":
+        v = op["nenv"]
+        if v <= 0: return "raise"
+        st["nenv"] = v
+        nr = st["nrep"]
+        if len(nr) != v and all(x == nr[0] for x in nr): st["nrep"] = [nr[0]] * v      # an all-equal count holds for any number of environments
+        return "ok"
+    if k == "set_nrep":
+        v = op["nrep"]
+        if isinstance(v, int):
+            if v <= 0: return "raise"
+            st["nrep"] = [v] * st["nenv"]; return "ok"
+        if len(v) != st["nenv"] or any(x <= 0 for x in v): return "raise"
+        st["nrep"] = list(v); return "ok"
+    if k == "set_var":
+        sd = op["sd"]
+        if isinstance(sd, list) and len(sd) != t: return "raise"
+        st["sd"][op["which"]] = _expand_sd(sd, t)
+        if op["which"] == "err": st.pop("var_err_exact", None)
+        return "ok"
+    raise ValueError("unknown session operation %r" % k)
+
+def _sess_design(st):
+    nenv, nr = st["nenv"], st["nrep"]
+    return nenv, (nr[:nenv] if len(nr) >= nenv else None)
+
+def _sess_snapshot(st, op):
+    """the configuration in force as a trial-shaped case for the single-call checks"""
+    sc = {"kind": "trial", "geno": st["geno"], "taxa": st["taxa"], "taxa_grp": st["taxa_grp"], "beta": st["beta"], "u": st["u"],
+          "trait": st["trait"], "draws": op.get("draws", [])}
+    if st["cls"] == "GE":
+        sc.update({"nenv": st["nenv"], "nrep": list(st["nrep"]), "sd_env": st["sd"]["env"], "sd_rep": st["sd"]["rep"], "sd_err": st["sd"]["err"]})
+    tn = st["trait"] if st["trait"] is not None else _autolabels("Trait", st["t"])
+    e = op["est"]
+    sc["est"] = {"grp": e["grp"], "traits": list(e["traits"]), "drop": [], "perm_seed": 0,
+                 "gt": {"taxa": st["taxa"], "taxa_grp": st["taxa_grp"]} if e["gt"] else None}
+    return sc, tn
+
+def _rand_pop(rng, p, n=None):
+    m = rng.choice([1, 2, 2])
+    if n is None: n = rng.choice([1, 2, 2, 3, 3, 4])
+    geno = [[[rng.randint(0, 1) for _ in range(p)] for _ in range(n)] for _ in range(m)]
+    return geno, _rand_taxa(rng, n), _rand_grp(rng, n)
+
+def _rand_taxa(rng, n):
+    r = rng.random()
+    if r < 0.15: return None
+    taxa = rng.sample(LABELS, n)
+    if r > 0.85 and n > 1: taxa[rng.randrange(n)] = taxa[rng.randrange(n)]
+    return taxa
+
+def _rand_grp(rng, n):
+    return None if rng.random() < 0.35 else [rng.randint(1, 3) for _ in range(n)]
+
+def _session(rng, cls=None, script=None):
+    p = rng.randint(1, 3); t = rng.randint(1, 2)
+    if cls is None: cls = "GE" if rng.random() < 0.75 else "True"
+    geno, taxa, grp = _rand_pop(rng, p)
+    nfixed = 1 if rng.random() < 0.75 else 2
+    newmat = lambda rows: [[_grid(rng) for _ in range(t)] for _ in range(rows)]
+    case = {"kind": "session", "pop": {"geno": geno, "taxa": taxa, "taxa_grp": grp},
+            "model": {"beta": newmat(nfixed), "u": newmat(p), "trait": None if rng.random() < 0.25 else rng.sample(TRAITS, t)},
+            "proto": {"cls": cls}}
+    if cls == "GE":
+        nenv = rng.choice([1, 1, 2, 2, 3])
+        zero = rng.random() < 0.3
+        case["proto"].update({"nenv": nenv, "nrep": rng.randint(1, 2) if rng.random() < 0.6 else [rng.randint(1, 2) for _ in range(nenv)],
+                              "sd_env": _sd(rng, t, zero), "sd_rep": _sd(rng, t, zero), "sd_err": _sd(rng, t, zero)})
+    st = _sess_init(case)
+    mutators = ["set_geno", "set_geno", "set_taxa", "set_taxa", "set_grp", "new_pop", "set_u", "set_u", "set_beta", "copy", "set_h2"]
+    if cls == "GE": mutators += ["set_nenv", "set_nrep", "set_var", "set_var", "set_h2"]
+    if script is None:
+        script = ["pheno"]
+        for _ in range(rng.randint(1, 3)):
+            script += [rng.choice(mutators) for _ in range(rng.randint(1, 3))] + ["pheno"]
+    steps = []
+    for k in script:
+        n = len(st["geno"][0]); m = len(st["geno"])
+        op = {"op": k}
+        if k == "pheno":
+            nenv, reps = _sess_design(st) if cls == "GE" else (1, [])
+            if cls == "GE":
+                if reps is None: reps = list(st["nrep"])
+                dr = []
+                for e in range(len(reps)):
+                    dr.append([_grid(rng, 3, 4) for _ in range(t)])
+                    for _ in range(reps[e]):
+                        dr.append([_grid(rng, 3, 4) for _ in range(t)])
+                        dr.append([_grid(rng, 3, 4) for _ in range(n * t)])
+                op["draws"] = dr
+            has_grp_col = cls == "GE" or st["taxa_grp"] is not None
+            op["est"] = {"grp": has_grp_col and rng.random() < 0.4, "traits": rng.sample(range(t), rng.randint(1, t)), "gt": rng.random() < 0.75}
+        elif k == "set_geno":
+            op["geno"] = [[[rng.randint(0, 1) for _ in range(p)] for _ in range(n)] for _ in range(m)]
+        elif k == "set_taxa":
+            op["taxa"] = _rand_taxa(rng, n)
+            if op["taxa"] is not None and st["taxa"] is not None and rng.random() < 0.4:       # same labels in another order
+                op["taxa"] = list(st["taxa"]); rng.shuffle(op["taxa"])
+        elif k == "set_grp": op["taxa_grp"] = _rand_grp(rng, n)
+        elif k == "new_pop":
+            op["geno"], op["taxa"], op["taxa_grp"] = _rand_pop(rng, p, n if rng.random() < 0.4 else None)
+        elif k == "set_u": op["u"] = newmat(p)
+        elif k == "set_beta": op["beta"] = newmat(len(st["beta"]))
+        elif k == "copy": op["deep"] = rng.random() < 0.5
+        elif k == "set_nenv": op["nenv"] = rng.choice([0, 1, 1, 2, 2, 3, 3, 4])
+        elif k == "set_nrep":
+            r = rng.random()
+            if r < 0.4: op["nrep"] = rng.choice([0, 1, 2, 2, 3])
+            else: op["nrep"] = [rng.randint(1, 3) for _ in range(st["nenv"] if r < 0.85 else st["nenv"] + 1)]
+        elif k == "set_var":
+            op["which"] = rng.choice(["env", "rep", "err"])
+            sd = _sd(rng, t, rng.random() < 0.3)
+            if isinstance(sd, list) and rng.random() < 0.1: sd = sd + [1.0]
+            op["sd"] = sd
+        elif k == "set_h2":
+            vals = [1.0, 0.5, 0.25, 0.75, 0.125, 0.625] if rng.random() < 0.92 else [1.5, 2.0]
+            op["which"] = rng.choice(["h2", "H2"])
+            op["val"] = rng.choice(vals) if rng.random() < 0.5 else [rng.choice(vals) for _ in range(t)]
+            if cls == "GE":
+                vg = _var_G(st); hv = _h2_target(op, t)
+                op["sd_hint"] = [math.sqrt(max(0.0, float((1 - hv[j]) / hv[j] * vg[j]))) for j in range(t)]
+            else: op["sd_hint"] = [0.0] * t
+        _sess_apply(st, op)
+        steps.append(op)
+    case["steps"] = steps
+    return case
+
+SESSION_SCRIPTS = [("GE", ["pheno", "set_geno", "pheno"]), ("GE", ["pheno", "set_taxa", "pheno"]), ("GE", ["pheno", "set_grp", "pheno"]),
+                   ("GE", ["pheno", "set_u", "pheno"]), ("GE", ["pheno", "set_beta", "pheno"]), ("GE", ["pheno", "new_pop", "pheno"]),
+                   ("GE", ["pheno", "copy", "set_geno", "set_taxa", "pheno"]), ("GE", ["pheno", "set_nenv", "pheno", "set_nrep", "pheno"]),
+                   ("GE", ["pheno", "set_var", "pheno", "set_h2", "pheno"]), ("GE", ["pheno", "set_h2", "set_u", "pheno", "set_h2", "pheno"]),
+                   ("True", ["pheno", "set_geno", "pheno"]), ("True", ["pheno", "set_taxa", "set_grp", "pheno"]),
+                   ("True", ["pheno", "set_u", "pheno", "set_beta", "pheno"]), ("True", ["pheno", "copy", "new_pop", "pheno", "set_h2", "pheno"])]
+
+def _gen_sessions(rng, quick):
+    out = []
+    for cls, script in SESSION_SCRIPTS * (1 if quick else 4):
+        out.append(_session(rng, cls, script))
+    for _ in range(110 if quick else 3000):
+        out.append(_session(rng))
+    return out
+
+def _run_session(case):
+    import copy as _copy
+    from rngscript import Scripted
+    from pybrops.model.gmod.DenseAdditiveLinearGenomicModel import DenseAdditiveLinearGenomicModel
+    from pybrops.popgen.gmat.DensePhasedGenotypeMatrix import DensePhasedGenotypeMatrix
+    from pybrops.breed.prot.pt.G_E_Phenotyping import G_E_Phenotyping
+    from pybrops.breed.prot.pt.TruePhenotyping import TruePhenotyping
+    from pybrops.breed.prot.bv.TrueBreedingValue import TrueBreedingValue
+    from pybrops.breed.prot.bv.MeanPhenotypicBreedingValue import MeanPhenotypicBreedingValue
+    def mkpop(g, taxa, grp):
+        return DensePhasedGenotypeMatrix(numpy.array(g, dtype="int8"), taxa=None if taxa is None else numpy.array(taxa, dtype=object),
+                                         taxa_grp=None if grp is None else numpy.array(grp, dtype=int))
+    pg = mkpop(case["pop"]["geno"], case["pop"]["taxa"], case["pop"]["taxa_grp"])
+    md = case["model"]; t = len(md["u"][0])
+    gm = DenseAdditiveLinearGenomicModel(beta=numpy.array(md["beta"], dtype=float), u_misc=None, u_a=numpy.array(md["u"], dtype=float),
+                                         trait=None if md["trait"] is None else numpy.array(md["trait"], dtype=object))
+    pr = case["proto"]; ge = pr["cls"] == "GE"
+    rng = Scripted(normals=[])
+    if ge:
+        pt = G_E_Phenotyping(gm, nenv=pr["nenv"], nrep=pr["nrep"] if isinstance(pr["nrep"], int) else numpy.array(pr["nrep"], dtype=int),
+                             var_env=_var_arg(pr["sd_env"], t), var_rep=_var_arg(pr["sd_rep"], t), var_err=_var_arg(pr["sd_err"], t), rng=rng)
+    else: pt = TruePhenotyping(gm)
+    del gm                                                     # from here on the model is reached through the protocol only
+    outs = []
+    for op in case["steps"]:
+        k = op["op"]; o = {}
+        if k == "pheno":
+            if ge:
+                rng.q["normal"] = _copy.deepcopy(op["draws"])
+                o["nrep_attr"] = [int(x) for x in pt.nrep]
+                o["var_set"] = [[float(x).hex() for x in a] for a in (pt.var_env, pt.var_rep, pt.var_err)]
+            before = numpy.array(pg.mat, copy=True)
+            df = _try(lambda: pt.phenotype(pg))
+            o["geno_unchanged"] = bool(numpy.array_equal(pg.mat, before))
+            if isinstance(df, dict): o["df"] = df
+            else:
+                o["df"] = _canon_df(df)
+                o["left"] = len(rng.q["normal"]) if ge else 0
+                o["true_bv"] = _try(lambda: _canon_bv(TrueBreedingValue(pt.gpmod).estimate(None, pg)))
+                e = op["est"]; tn = o["df"]["tcols"]
+                bv = MeanPhenotypicBreedingValue("taxa", "taxa_grp" if e["grp"] else None, [tn[j] for j in e["traits"]])
+                def est():
+                    keep = df.copy(deep=True)
+                    r = _canon_bv(bv.estimate(df, pg if e["gt"] else None))
+                    r["input_unchanged"] = bool(keep.equals(df))
+                    return r
+                o["est"] = _try(est)
+                o["has_grp_col"] = "taxa_grp" in df.columns
+        else:
+            def act():
+                nonlocal pg, pt
+                if k == "set_geno": pg.mat = numpy.array(op["geno"], dtype="int8")
+                elif k == "set_taxa": pg.taxa = None if op["taxa"] is None else numpy.array(op["taxa"], dtype=object)
+                elif k == "set_grp": pg.taxa_grp = None if op["taxa_grp"] is None else numpy.array(op["taxa_grp"], dtype=int)
+                elif k == "new_pop": pg = mkpop(op["geno"], op["taxa"], op["taxa_grp"])
+                elif k == "set_u": pt.gpmod.u_a = numpy.array(op["u"], dtype=float)
+                elif k == "set_beta": pt.gpmod.beta = numpy.array(op["beta"], dtype=float)
+                elif k == "copy": pt = _copy.deepcopy(pt) if op["deep"] else _copy.copy(pt)
+                elif k == "set_nenv": pt.nenv = op["nenv"]
+                elif k == "set_nrep": pt.nrep = op["nrep"] if isinstance(op["nrep"], int) else numpy.array(op["nrep"], dtype=int)
+                elif k == "set_var": setattr(pt, "var_" + op["which"], _var_arg(op["sd"], t))
+                elif k == "set_h2":
+                    val = op["val"] if not isinstance(op["val"], list) else numpy.array(op["val"], dtype=float)
+                    (pt.set_h2 if op["which"] == "h2" else pt.set_H2)(val, pg)
+                    return {"ok": True, "var_err": [float(x).hex() for x in pt.var_err]}
+                else: raise ValueError("unknown session operation %r" % k)
+                return {"ok": True}
+            o = _try(act)
+        outs.append(o)
+    return {"steps": outs}
+
+def _sess_walk(case, out):
+    """yields (index, operation, output, configuration in force BEFORE the operation (a private copy), expectation)"""
+    import copy as _copy
+    st = _sess_init(case)
+    for i, (op, o) in enumerate(zip(case["steps"], out["steps"])):
+        before = _copy.deepcopy(st)
+        want = _sess_apply(st, op)
+        yield i, op, o, before, want
+
+def _pred_session(case, out, bad):
+    if len(out["steps"]) != len(case["steps"]): bad.append("harness: step count"); return
+    for i, op, o, st, want in _sess_walk(case, out):
+        k = op["op"]; tag = "step %d (%s): " % (i, k); sub = []
+        if k != "pheno":
+            if want == "any": pass
+            elif want == "raise":
+                if "exc" not in o: sub.append("an invalid assignment was accepted")
+            elif "exc" in o: sub.append("raised %s: %s" % (o["exc"], o["msg"]))
+            elif k == "set_h2":
+                vg = _var_G(st); hv = _h2_target(op, st["t"])
+                for j in range(st["t"]):
+                    ve = _fh(o["var_err"][j])
+                    if vg[j] > 0:
+                        if not _close(vg[j] / (vg[j] + ve), hv[j]): sub.append("var_G/(var_G+var_err) = %s, target %s (trait %d) for the population and model in force" % (float(vg[j] / (vg[j] + ve)), float(hv[j]), j))
+                    elif ve != 0: sub.append("var_err != 0 for a trait without genetic variance")
+        else:
+            sc, tn = _sess_snapshot(st, op)
+            if st["cls"] == "GE":
+                nenv, reps = _sess_design(st)
+                so = dict(o)
+                if _pred_ge(sc, so, nenv, reps, sub, approx_var="var_err_exact" in st): _pred_sess_est(sc, o, sub)
+                if "var_err_exact" in st and "var_set" in o and not all(_close(_fh(h), w) for h, w in zip(o["var_set"][2], st["var_err_exact"])):
+                    sub.append("stored var_err is not the one fixed by the last heritability setting")
+            else:
+                if "exc" in o["df"]: sub.append("phenotype() raised %s: %s" % (o["df"]["exc"], o["df"]["msg"]))
+                else:
+                    _pred_true(sc, {"true_df": o["df"]}, sub)
+                    if not o["geno_unchanged"]: sub.append("phenotype() modified the genotype matrix")
+                    _pred_sess_est(sc, o, sub)
+            if "true_bv" in o: _pred_true(sc, {"true_bv": o["true_bv"]}, sub)
+        bad.extend(tag + x for x in sub)
+
+def _pred_sess_est(sc, o, bad):
+    n = o["df"]["nrow"]
+    so = {"df": o["df"], "est": {"keep": list(range(n)), "perm": list(range(n)), "bv": o["est"], "bv_perm": o["est"], "has_grp_col": o["has_grp_col"]}}
+    _pred_est(sc, so, bad)
+
+def _emit_session(case, out):
+    pr = case["proto"]; md = case["model"]; pp = case["pop"]; t = len(md["u"][0]); ge = pr["cls"] == "GE"
+    g3 = lambda g: E.lst3(g, E.z)
+    if ge:
+        nrep = "(NScalar %d)" % pr["nrep"] if isinstance(pr["nrep"], int) else "(NArr %s)" % E.lst(pr["nrep"], E.nat)
+        par = "GE %d (nrep_vec %d %s) %s" % (pr["nenv"], pr["nenv"], nrep, " ".join("(var_vec %d %s)" % (t, _vararg(pr["sd_" + k], False)) for k in ("env", "rep", "err")))
+    else: par = "TrueP 1 [1%%nat] (repeat 0%%Q %d) (repeat 0%%Q %d) (repeat 0%%Q %d)" % (t, t, t)
+    s0 = "(mkState %s %d %s %s %s %d %d %s %s %s)" % (par, t, E.lst2(md["beta"], _q), E.lst2(md["u"], _q), _optl(md["trait"], E.s),
+                                                       len(pp["geno"][0]), len(pp["geno"][0][0]), g3(pp["geno"]), _optl(pp["taxa"], E.s), _optl(pp["taxa_grp"], E.z))
+    ops = []; checks = []
+    for i, op, o, st, want in _sess_walk(case, out):
+        k = op["op"]; get = "(nth %d outs %s)"
+        if k == "pheno":
+            tn = st["trait"] if st["trait"] is not None else _autolabels("Trait", t)
+            e = op["est"]
+            ops.append("OPheno %s (%s, %s, %s)" % (E.lst2(op.get("draws", []), _q), E.b(e["grp"]), E.lst([tn[j] for j in e["traits"]], E.s), E.b(e["gt"])))
+            d = o["df"]
+            if ge:
+                tail = "%s %s %s" % (E.lst(o["nrep_attr"], E.nat), E.lst2(o["var_set"], _qh), get % (i, "ODone"))
+                if "exc" in d: checks.append("table_agree None None %s" % tail)
+                else:
+                    if any(v is None for r in d["vals"] for v in r) or any(x is None for x in d["taxa"] + d["env"] + d["rep"]): return "false"
+                    g = d.get("taxa_grp", [None] * d["nrow"])
+                    irows = [E.tup(E.s(d["taxa"][r]), E.opt(g[r], E.z), E.z(d["env"][r]), E.z(d["rep"][r]), E.lst(d["vals"][r], _qh)) for r in range(d["nrow"])]
+                    checks.append("Z.eqb %s 0%%Z && table_agree (Some [%s]) %s %s" % (E.z(o["left"]), "; ".join(irows), _bv_lit(o["est"]), tail))
+            else:
+                if "exc" in d: return "false"
+                tg = d.get("taxa_grp", [None] * d["nrow"])
+                rows = [(d["taxa"][r], tg[r], [Fraction(float.fromhex(h)) for h in d["vals"][r]]) for r in range(d["nrow"])]
+                checks.append("true_table_agree %s %s %s" % (E.lst(rows, _trow), _bv_lit(o["est"]), get % (i, "ODone")))
+            continue
+        if k == "set_geno": ops.append("OSetGeno %s" % g3(op["geno"]))
+        elif k == "set_taxa": ops.append("OSetTaxa %s" % _optl(op["taxa"], E.s))
+        elif k == "set_grp": ops.append("OSetGrp %s" % _optl(op["taxa_grp"], E.z))
+        elif k == "new_pop": ops.append("ONewPop %d %d %s %s %s" % (len(op["geno"][0]), len(op["geno"][0][0]), g3(op["geno"]), _optl(op["taxa"], E.s), _optl(op["taxa_grp"], E.z)))
+        elif k == "set_u": ops.append("OSetU %s" % E.lst2(op["u"], _q))
+        elif k == "set_beta": ops.append("OSetBeta %s" % E.lst2(op["beta"], _q))
+        elif k == "copy": ops.append("OCopy")
+        elif k == "set_nenv": ops.append("OSetNenv %d" % op["nenv"])
+        elif k == "set_nrep": ops.append("OSetNrep %s" % ("(NScalar %d)" % op["nrep"] if isinstance(op["nrep"], int) else "(NArr %s)" % E.lst(op["nrep"], E.nat)))
+        elif k == "set_var": ops.append("OSetVar %s %s" % ({"env": "VEnv", "rep": "VRep", "err": "VErr"}[op["which"]], _vararg(op["sd"], False)))
+        elif k == "set_h2":
+            harg = "(HArr %s)" % E.lst(op["val"], _q) if isinstance(op["val"], list) else "(HScalar %s)" % _q(op["val"])
+            ops.append("OSetH2 %s %s" % (harg, E.lst(op["sd_hint"], _q)))
+            checks.append("h2obs_agree %s %s" % ("None" if "exc" in o else "(Some %s)" % E.lst(o["var_err"], _qh), get % (i, "ODone")))
+            continue
+        checks.append("done_agree %s %s" % (E.b("exc" in o), get % (i, "(OH2 [])")))
+    return ("(let s0 := %s in\n  let ops := [%s] in\n  let outs := run s0 ops in\n  %s)"
+            % (s0, ";\n    ".join(ops), "\n   && ".join(checks)))
